@@ -20,8 +20,9 @@ LEVEL_TEXT = ("Proved in Coq (closed under the global context): C12_cancel_safe_
 LEVEL_NOTE = ("KNOWN FINDING cancel-after-commit (open): Orderer::next commits in_queue=FALSE and then awaits get_operation; a drop there (what "
               "Buffer's select! does when input arrives) loses the item. No small repair: the commit itself is an await point. The model has one "
               "step per await point; the real futures return Pending several times inside one point (k polls map to points only through "
-              "observation). Lock contention, store errors and tokio primitives are not modelled. The Buffer/ProcessorStream path itself is not "
-              "driven (timing dependent); the cancellation it performs is what the harness does deterministically.")
+              "observation). Lock contention, store errors and tokio primitives are not modelled. The Buffer/ProcessorStream path is probed (timing "
+              "dependent, a few cases; items are lost there too: e.g. 19 of 20 delivered); the cancellation it performs is what the harness "
+              "does deterministically.")
 ASSUMPTIONS = ["a dropped uncommitted sqlx transaction is rolled back (TransactionPermit::drop spawns the rollback); a COMMIT that reached SQLite "
                "stays applied when the awaiting future is dropped",
                "no contention on the orderer mutex / transaction semaphore while next() is polled (single caller, as in Buffer)",
@@ -31,7 +32,8 @@ TRUSTED = ["modelled not verified: sqlx/SQLite commit+rollback semantics, tokio 
            "hook: p2panda-stream/src/orderer/verif_c11.rs (Ordering<Hash> for Operation<E: VerifDependencies>)"]
 RULE = ("wrap (+ k = 1..10 polls on the wrapper store, where the wrapper names the call that was cut): for chains/diamonds (causal and reversed delivery order) every single cancellation point {begin, take, commit0, commit1, getop, "
         "notified, none} at every position between deliveries, all pairs of points, random schedules of 3-5 attempts interleaved with deliveries; "
-        "direct (real SqliteStore): k = 1..20 polls then drop, and pairs (k1, k2). non-trivial = at least one attempt really cancelled (not run to "
+        "direct (real SqliteStore): k = 1..20 polls then drop, and pairs (k1, k2); buffer: n operations fed through the public ProcessorStream/Buffer "
+        "layer some ms apart (timing dependent, oracle only: all delivered, or lost with every row flagged out of the queue). non-trivial = at least one attempt really cancelled (not run to "
         "completion) with at least one item in the queue")
 NONTRIVIAL_FLOOR = 30
 HARNESS_TIMEOUT = 1800
@@ -108,13 +110,27 @@ def gen(tier, rng):
         ds = rng.choice(scen[1:6])
         p1 = rng.randint(0, len(ds))
         yield {"mode": "direct", "steps": _insert(ds, [(p1, ["k", rng.randint(1, 12)]), (len(ds), ["k", rng.randint(1, 12)])])}
+    # probe through the public stream layer (ProcessorStream -> Buffer -> Orderer): timing dependent,
+    # judged by the oracle only (all delivered, or lost with the signature of the known finding)
+    for n, gap in ([(20, 3000), (30, 5000), (20, 1000)] if tier == "quick" else
+                   [(20, 0), (20, 200), (20, 1000), (20, 3000), (30, 100), (30, 5000), (50, 500), (50, 2000),
+                    (40, 4000), (40, 8000), (25, 2500), (60, 3000)]):
+        yield {"mode": "buffer", "n": n, "gap": gap}
 
 
 # ------------------------------------------------------------------------------------------------
 # rendering
 # ------------------------------------------------------------------------------------------------
 
+def _buffer_parse(impl):
+    d = dict(t.split("=") for t in impl.split() if "=" in t)
+    m, n = d["delivered"].split("/")
+    return int(m), int(n), int(d["flagged_out"]), int(d["queued"]), int(d["distinct"])
+
+
 def harness_line(case):
+    if case["mode"] == "buffer":
+        return "buffer %d %d" % (case["n"], case["gap"])
     toks = []
     for s in case["steps"]:
         if s[0] == "d":
@@ -156,6 +172,8 @@ def _attempts(case):
 
 
 def coq_model(case):
+    if case["mode"] == "buffer":
+        return '"buffer"%string'
     atts = _attempts(case)
     # an attempt cut after k polls: where that is, is a matter of timing; the model lists the outcome
     # for every possibility (direct: {before the commit is applied, after it, completed}; wrapper
@@ -189,6 +207,11 @@ def _parse(impl):
 
 
 def coq_oracle(case, impl):
+    if case["mode"] == "buffer":
+        m, n, flagged, queued, distinct = _buffer_parse(impl)      # raises on STUCK/PANIC -> false
+        if queued > 0:
+            return "true"          # the probe gave up waiting (machine load): inconclusive, not judged
+        return "Nat.eqb %d %d && Nat.eqb %d %d" % (m, n, distinct, n)
     atts, drained = _parse(impl)
     observed = [v for _, v in atts if v is not None] + drained
     dels = "[" + ";".join("(%d%%N, %s)" % (s[1], _nl(s[2])) for s in case["steps"] if s[0] == "d") + "]"
@@ -205,6 +228,12 @@ def _norm_direct(line):
 
 
 def agree(case, impl, model):
+    if case["mode"] == "buffer":
+        try:
+            _buffer_parse(impl)
+            return model == "buffer"
+        except Exception:
+            return False
     try:
         if case["mode"] == "wrap":
             want = _parse(impl)
@@ -217,6 +246,14 @@ def agree(case, impl, model):
 
 def known(case, impl):
     """only cases in which some next() future was dropped after the commit had been applied"""
+    if case["mode"] == "buffer":
+        # signature of the class seen from outside: every item was taken out of the queue (all rows
+        # in_queue = FALSE, none queued), nothing came out twice, and some never came out
+        try:
+            m, n, flagged, queued, distinct = _buffer_parse(impl)
+        except Exception:
+            return None
+        return FINDING if (m < n and flagged == n and queued == 0 and distinct == m) else None
     try:
         atts, _ = _parse(impl)
     except Exception:
@@ -225,6 +262,8 @@ def known(case, impl):
 
 
 def nontrivial(case, impl):
+    if case["mode"] == "buffer":
+        return False
     try:
         atts, drained = _parse(impl)
     except Exception:
@@ -234,6 +273,8 @@ def nontrivial(case, impl):
 
 
 def shrink(case):
+    if case["mode"] == "buffer":
+        return
     st = case["steps"]
     for i in range(len(st)):
         yield {"mode": case["mode"], "steps": st[:i] + st[i + 1:]}
@@ -242,8 +283,13 @@ def shrink(case):
 def distribution(cases, impl):
     classes, modes = {}, {}
     lost = 0
+    buf = []
     for i, c in enumerate(cases):
         modes[c["mode"]] = modes.get(c["mode"], 0) + 1
+        if c["mode"] == "buffer":
+            if i in impl:
+                buf.append("n=%d gap_us=%d: %s" % (c["n"], c["gap"], impl[i]))
+            continue
         if i in impl:
             try:
                 atts, _ = _parse(impl[i])
@@ -256,7 +302,8 @@ def distribution(cases, impl):
                 lost += 1
     return {"modes": modes, "cancellation_points_observed": dict(sorted(classes.items())),
             "cases_with_a_cut_after_commit": lost,
-            "reproduced_on_real_sqlite_store": classes.get("direct:post", 0) > 0}
+            "reproduced_on_real_sqlite_store": classes.get("direct:post", 0) > 0,
+            "public_stream_layer_probe": buf}
 
 
 REGISTERED = True
